@@ -541,20 +541,100 @@ pub proof fn lemma_stmt_done(st0: &ParseState<'_, &str>, st: &ParseState<'_, &st
     assert(lay_ok(f, e, l, st0.head as int));
 }
 
-// ---- the top-level entry for a text that is one term (consume_one / build_mid_result) ----
-/// the cursor is on the text of layout l, which runs to the end of the input; no term has been
-/// read yet, and the text does not start with the space keyword or (with no budget read yet) the
-/// opening budget bracket - those two are tried before a term is
+// ---- the top-level entry (consume_one / build_mid_result / from_parse) ----
+/// the cursor is on the text of layout l; nothing has been read yet, and the text does not start
+/// with the space keyword or the opening budget bracket - those two are tried before a term is
 pub open spec fn top_hyp(st: &ParseState<'_, &str>, l: Lay) -> bool {
     &&& e_hyp(st, l)
-    &&& st.head + lay_text(st.format, l).len() == st.env@.len()
     &&& mid_empty(st.mid_result)
     &&& !st.at_head(st.format.space.parse@)
     &&& !st.at_head(st.format.task.budget_brackets.0@)
 }
-/// the term slot holds a term with layout l, nothing else is filled, the input is used up
+/// the term slot holds a term with layout l, nothing else is filled, the cursor is after the text
 pub open spec fn top_mid(st: &ParseState<'_, &str>, st0: &ParseState<'_, &str>, l: Lay) -> bool {
     &&& st.mid_result.term matches Some(t) && lay_of(l, t)
     &&& st.mid_result.budget is None && st.mid_result.punctuation is None && st.mid_result.stamp is None && st.mid_result.truth is None
+    &&& st.head == st0.head + lay_text(st0.format, l).len()
+}
+/// the k-th punctuation of the trial order stands at q; it is not mistaken for a space or an
+/// opening budget bracket
+pub open spec fn punct_at(f: &NarseseFormat<&str>, e: Seq<char>, q: int, k: int) -> bool {
+    &&& 0 <= k < 4 && 0 <= q
+    &&& first_at_e(e, q, punct_try_order(f), k)
+    &&& punct_try_order(f)[k].len() > 0
+    &&& !kw_at(e, q, f.space.parse@)
+    &&& !kw_at(e, q, f.task.budget_brackets.0@)
+}
+/// consume_one with the term already read: only the punctuation can be next
+pub open spec fn punct_hyp(st: &ParseState<'_, &str>, k: int) -> bool {
+    &&& punct_at(st.format, st.env@, st.head as int, k)
+    &&& st.mid_result.term is Some && st.mid_result.punctuation is None
+    &&& st.mid_result.budget is None && st.mid_result.stamp is None && st.mid_result.truth is None
+}
+pub open spec fn punct_mid(st: &ParseState<'_, &str>, st0: &ParseState<'_, &str>, k: int) -> bool {
+    &&& st.mid_result.punctuation matches Some(p) && punct_kind(k, p)
+    &&& st.mid_result.term == st0.mid_result.term
+    &&& st.mid_result.budget is None && st.mid_result.stamp is None && st.mid_result.truth is None
+    &&& st.head == st0.head + punct_try_order(st0.format)[k].len()
+}
+/// whole-input hypothesis for "term punctuation" (a sentence without stamp and truth)
+pub open spec fn sent_hyp(st: &ParseState<'_, &str>, l: Lay, k: int) -> bool {
+    top_hyp(st, l) && punct_at(st.format, st.env@, st.head + lay_text(st.format, l).len(), k)
+        && st.head + lay_text(st.format, l).len() + punct_try_order(st.format)[k].len() == st.env@.len()
+}
+/// term and punctuation read, the cursor right after the punctuation
+pub open spec fn sent_done(st: &ParseState<'_, &str>, st0: &ParseState<'_, &str>, l: Lay, k: int) -> bool {
+    &&& st.mid_result.term matches Some(t) && lay_of(l, t)
+    &&& st.mid_result.punctuation matches Some(p) && punct_kind(k, p)
+    &&& st.mid_result.budget is None && st.mid_result.stamp is None && st.mid_result.truth is None
+    &&& st.head == st0.head + lay_text(st0.format, l).len() + punct_try_order(st0.format)[k].len()
+}
+/// the j-th entry of the stamp trial order (1 past, 2 present, 3 future) stands at q between the
+/// stamp brackets and ends the input
+pub open spec fn tense_at(f: &NarseseFormat<&str>, e: Seq<char>, q: int, j: int) -> bool {
+    let b0 = f.sentence.stamp_brackets.0@; let b1 = f.sentence.stamp_brackets.1@;
+    let q0 = q + b0.len(); let q1 = q0 + stamp_try_order(f)[j].len();
+    &&& 1 <= j <= 3 && 0 <= q
+    &&& kw_at(e, q, b0)
+    &&& !kw_at(e, q0, f.space.parse@)
+    &&& first_at_e(e, q0, stamp_try_order(f), j)
+    &&& !kw_at(e, q1, f.space.parse@)
+    &&& q1 + b1.len() == e.len()
+    &&& q < e.len()
+    &&& !kw_at(e, q, f.space.parse@)
+    &&& !kw_at(e, q, f.task.budget_brackets.0@)
+}
+/// consume_one with term and punctuation read: only the stamp can be next
+pub open spec fn stamp_hyp(st: &ParseState<'_, &str>, j: int) -> bool {
+    &&& tense_at(st.format, st.env@, st.head as int, j)
+    &&& st.mid_result.term is Some && st.mid_result.punctuation is Some
+    &&& st.mid_result.budget is None && st.mid_result.stamp is None && st.mid_result.truth is None
+}
+pub open spec fn stamp_mid(st: &ParseState<'_, &str>, st0: &ParseState<'_, &str>, j: int) -> bool {
+    &&& st.mid_result.stamp matches Some(s) && stamp_kind(j, s)
+    &&& st.mid_result.term == st0.mid_result.term && st.mid_result.punctuation == st0.mid_result.punctuation
+    &&& st.mid_result.budget is None && st.mid_result.truth is None
     &&& st.head == st0.env@.len()
+}
+/// whole-input hypothesis for "term punctuation space tense"
+pub open spec fn sent3_hyp(st: &ParseState<'_, &str>, l: Lay, k: int, j: int) -> bool {
+    let f = st.format; let e = st.env@;
+    let p2 = st.head + lay_text(f, l).len() + punct_try_order(f)[k].len();
+    let p3 = p2 + f.space.format_terms@.len();
+    &&& top_hyp(st, l) && punct_at(f, e, st.head + lay_text(f, l).len(), k)
+    // the spaces after the punctuation are exactly the term-level space the formatter wrote
+    &&& spaces_end(e, f.space.parse@, p2) == p3
+    &&& tense_at(f, e, p3, j)
+}
+pub open spec fn sent3_done(st: &ParseState<'_, &str>, st0: &ParseState<'_, &str>, l: Lay, k: int, j: int) -> bool {
+    &&& st.mid_result.term matches Some(t) && lay_of(l, t)
+    &&& st.mid_result.punctuation matches Some(p) && punct_kind(k, p)
+    &&& st.mid_result.stamp matches Some(s) && stamp_kind(j, s)
+    &&& st.mid_result.budget is None && st.mid_result.truth is None
+    &&& st.head == st0.env@.len()
+}
+/// one of the four stamp keywords stands at the cursor
+pub open spec fn stamp_kw_here(st: &ParseState<'_, &str>) -> bool {
+    let n = st.format.sentence;
+    st.at_head(n.stamp_fixed@) || st.at_head(n.stamp_past@) || st.at_head(n.stamp_present@) || st.at_head(n.stamp_future@)
 }
